@@ -2,7 +2,7 @@
    predicate that [holds] evaluates on the implementation's observations. *)
 From Coq Require Import Permutation.
 From Boltons Require Import Lib.Prelude Model.C17_Model Spec.C17_Spec Check.C17_Check
-  Proofs.C17_Dict Proofs.C17_OTO Proofs.C17_SpecLemmas.
+  Proofs.C17_Dict Proofs.C17_OTO Proofs.C17_FD Proofs.C17_SpecLemmas.
 
 (* ---- health of a model instance ------------------------------------------------ *)
 Lemma OtoInv_nodup_vals o : OtoInv o -> NoDup (map snd (o_fwd o)).
@@ -235,12 +235,48 @@ Proof. induction l as [|a r IH]; intros [|i] x y; simpl; try discriminate; auto.
 Lemma views_snoc h o : map oto_view_of (h ++ [o]) = map oto_view_of h ++ [oto_view_of o].
 Proof. now rewrite map_app. Qed.
 
+(* == on dicts with unique keys is equality of the item sets *)
+Lemma bool_eq_iff' (x y : bool) : (x = true <-> y = true) -> x = y.
+Proof. destruct x, y; intros [H1 H2]; auto; try (symmetry; auto). Qed.
+
+Lemma dict_eqb_same_set (a b : dict) : NoDup (map fst a) -> NoDup (map fst b) ->
+  dict_eqb_unordered a b = same_set a b.
+Proof.
+  intros A B. apply bool_eq_iff'. rewrite same_set_true. split.
+  - unfold dict_eqb_unordered. rewrite andb_true_iff, Nat.eqb_eq, forallb_forall. intros [L H].
+    assert (I : incl a b).
+    { intros [k v] Hin. apply H in Hin. simpl in Hin. destruct (d_get b k) eqn:E; [|discriminate].
+      apply Nat.eqb_eq in Hin. subst. now apply get_In. }
+    intro p. split; [apply I|].
+    apply NoDup_length_incl; trivial; [now apply NoDup_pairs_of_keys|].
+    unfold rel, pair in *. nlia.
+  - intro E. apply dict_eqb_perm; trivial. now apply EqSet_perm.
+Qed.
+
 (* ---- one step on a heap of instances ------------------------------------------------------ *)
 Lemma hstep_refines h hop : Forall OtoInv h -> snd (oto_hstep h hop) <> Raise BadIndex ->
   o_hop_ok (map oto_view_of h) (tr_ohop hop) (tr_res (snd (oto_hstep h hop)))
            (map oto_view_of (fst (oto_hstep h hop))) = true.
 Proof.
-  intros F NB. destruct hop as [u kvs|i s|i s op|ior i s j t|keys v]; simpl in *.
+  intros F NB. destruct hop as [u kvs|i s|i s op|ior i s j t|keys v|i s|i s j t]; simpl in *.
+  7: { rewrite !nth_error_map. destruct (nth_error h i) as [o|] eqn:E; simpl in *; [|congruence].
+       destruct (nth_error h j) as [o2|] eqn:E2; simpl in *; [|congruence].
+       assert (Ho : OtoInv (oto_side s o)).
+       { destruct s; simpl; [apply OtoInv_swap|]; eapply Forall_nth_error; eauto. }
+       assert (Ho2 : OtoInv (oto_side t o2)).
+       { destruct t; simpl; [apply OtoInv_swap|]; eapply Forall_nth_error; eauto. }
+       rewrite oviews_eqb_refl, !o_rel_view. simpl.
+       rewrite dict_eqb_same_set; [|apply Ho|apply Ho2].
+       destruct (same_set _ _); reflexivity. }
+  6: { rewrite nth_error_map. destruct (nth_error h i) as [o|] eqn:E; simpl in *; [|congruence].
+       rewrite views_snoc, firstn_app_exact, skipn_app_exact, oviews_eqb_refl. simpl.
+       assert (Ho : OtoInv (oto_side s o)).
+       { destruct s; simpl; [apply OtoInv_swap|]; eapply Forall_nth_error; eauto. }
+       rewrite model_healthy by now apply deepcopy_ok. simpl.
+       apply same_set_true. rewrite o_rel_view. intros [a b]. cbn [oto_deepcopy oto_view_of ov_fwd fst].
+       destruct (OtoInv_Inverse _ Ho) as [_ [_ I]]. split; intro Hin.
+       - apply (proj1 (flip_In _ _ _)) in Hin. now apply I.
+       - apply (proj2 (flip_In _ _ _)). now apply I. }
   5: { change pair_unhashable with kv_unhashable.
        change (map (fun k : nat => (k, v)) keys) with (fromkeys_pairs keys v).
        dex1; try dex1; try contra2; simpl; [apply oviews_eqb_refl|].
